@@ -13,6 +13,7 @@ Shape:
  3. `impl_*`: each clause carried over to the implementation model's own step / run / rows / registries / counter.
 -/
 import FlexModel.Ldm.StoreLemmas
+import Generated.LdmAlias
 
 namespace Props.C12
 open FlexModel.Ldm Generated.Ldm
@@ -683,6 +684,55 @@ example : (refAnswers (intended cfgAsIs.area) 1700000000000 1000000
     [.regProvider 2 [2], .regConsumer 2 [2], .add 2 627084805000 atLdm camObj 1000, .add 2 627084805000 nearKept camObj 0,
      .add 2 627084805000 farAway camObj 1000, .delete 2 7, .advance 2000, .maintain, .request (unfiltered 2 [2])]).getLast?.bind listed
       = some [camRec atLdm] := by
+  decide
+
+/-! ### Round 5: identifiers are independent whatever the provider re-uses
+
+The models are value-semantic: a provider that sends the same request object again, or builds several requests around
+one dictionary, performs - in the model - adds / updates with EQUAL content.  Equal content creates no link between
+identifiers: `impl_frame` (any reachable state, any two identifiers) and `impl_added_is_returned` (any history in
+between, equal adds and updates of other identifiers included) already say so; the corollary below states it in
+the form the aliasing histories of the harness exercise, and `containers_are_unshared` ties the abstraction "every
+identifier owns its record" to the two places of the source that could break it. -/
+
+/-- **no operation on one object changes another, even one with equal content (implementation)**: in every reachable
+state, for identifiers `j ≠ i` - in particular two identifiers holding EQUAL records, as after the same request was
+added twice - an update (any content, any outcome) or a delete aimed at `i` leaves what is stored under `j` exactly
+as it was; after a successful update of `i` the two differ exactly in the content. -/
+theorem impl_equal_objects_independent (cfg : Cfg) (s : St) (hs : Reach cfg s) (i j : Nat) (hij : j ≠ i)
+    (app : Nat) (obj : JVal) :
+    lookup j (step cfg s (.update app i obj)).1.db.rows = lookup j s.db.rows ∧
+    lookup j (step cfg s (.delete app i)).1.db.rows = lookup j s.db.rows :=
+  ⟨(impl_frame cfg s hs (.update app i obj)).1 i j (by simp [toSpec, Spec.Op.targets]) hij,
+   (impl_frame cfg s hs (.delete app i)).1 i j (by simp [toSpec, Spec.Op.targets]) hij⟩
+
+/-- non-vacuity / the aliasing history of the harness in the model: the same add three times (identifiers 0, 1, 2
+with equal records), update of 0, delete of 0, update of 2: the answers list 1 with the content it was added with
+throughout -/
+example :
+    let ops : List Op := [.regProvider 2 [2], .regConsumer 2 [2], .add 2 627084805000 farAway camObj 1000,
+      .add 2 627084805000 farAway camObj 1000, .add 2 627084805000 farAway camObj 1000,
+      .update 2 0 camObj2, .request (unfiltered 2 [2]), .delete 2 0, .request (unfiltered 2 [2]),
+      .update 2 2 camObj2, .maintain, .request (unfiltered 2 [2])]
+    (answers cfgAsIs 1700000000000 1000000 ops).filterMap listed =
+      [[{ camRec farAway with obj := camObj2 }, camRec farAway, camRec farAway],
+       [camRec farAway, camRec farAway],
+       [camRec farAway, { camRec farAway with obj := camObj2 }]] := by
+  decide
+
+/-- **regenerated structural obligation** (`harness/gen_ldm_alias.py`, an `ast` pass over the repository on every
+run): the value semantics of `Store.lean` / `Spec.lean` (every identifier owns its record) is faithful to a store of
+Python dictionaries only while no two identifiers can share one mutable container.  That rests on two facts of the
+source: `AddDataProviderReq.to_dict` hands out a dictionary built by that very call and stores nothing outside its
+own locals (no cache on the request, on the class or in a global), so every accepted add inserts a container nobody
+else holds; and `LDMMaintenance.update_provider_data` writes into no container it fetched from the database but
+passes a copy built in the call to `data_containers.update` (copy-on-write).  A change of either site re-opens this
+obligation. -/
+theorem containers_are_unshared :
+    Generated.LdmAlias.toDictOutsideWrites = 0 ∧ Generated.LdmAlias.toDictReflective = 0 ∧
+    Generated.LdmAlias.toDictDecorators = 0 ∧ Generated.LdmAlias.toDictReturnsFresh = true ∧
+    1 ≤ Generated.LdmAlias.updateStoreCalls ∧ Generated.LdmAlias.updateWritesIntoFetched = 0 ∧
+    Generated.LdmAlias.updatePassesFresh = true := by
   decide
 
 end Props.C12
